@@ -2,18 +2,19 @@
    ExtrOcamlBasic only: bool, option, list, prod, unit, sumbool are mapped to
    OCaml's own; nat, positive, N stay Coq inductives. No Extract Constant. *)
 From Coq Require Import Extraction ExtrOcamlBasic.
-From PegV Require Import Utf8 State Terminals Syntax Fields Literals Model Hooks Pretty Extracted.
+From PegV Require Import Utf8 State Terminals TerminalsSpec Syntax Fields Literals Model Spec Hooks Pretty Extracted.
 Extraction Language OCaml.
 
 Definition m_parse_std :=
   m_parse Hooks.ustate Extracted.scfg_run Extracted.tcfg_run Extracted.fcfg_run Extracted.rcfg_run Hooks.std_hooks.
+Definition s_parse_std := s_parse Extracted.fcfg_run Hooks.std_shooks.
 Definition get_fields_std := get_fields Extracted.fcfg_run.
 Definition pretty_exec := Pretty.from_parse_error Extracted.pretty_run.
 
 Extraction "model.ml"
   pretty_exec Pretty.pretty_spec
   Utf8.decode_str Utf8.encode_str
-  m_parse_std get_fields_std Hooks.u_init Model.gf_fuel
+  m_parse_std s_parse_std Spec.furthest_latest get_fields_std Hooks.u_init Model.gf_fuel
   Terminals.parse_char Terminals.parse_Whitespace Terminals.parse_string_literal
   Terminals.parse_character_literal Terminals.parse_character_range
   Terminals.parse_string_literal_insensitive Terminals.parse_character_literal_insensitive
